@@ -188,5 +188,5 @@ pub fn run(ctx: &Ctx) {
     for req in [Req::KeyDec(FileKind::Authentic), Req::PassDec(FileKind::Authentic), Req::KeyEnc, Req::PassEnc] { sse.push(Case { req, plain: Plain { len: 0, seed: 1 }, chunks: vec![], pos: SenderPos::First, wirings: vec![wiring_from(0), wiring_from(2), wiring_from(3)], sink: Sink::Healthy, sel: 5 }); }
     sse.push(Case { req: Req::KeyDec(FileKind::Authentic), plain: Plain { len: 40, seed: 2 }, chunks: vec![9], pos: SenderPos::AbsentCaseVariantPresent, wirings: vec![wiring_from(0), wiring_from(6)], sink: Sink::Healthy, sel: 6 });
     ctx.sse_vec("all_wirings", "5 requests x all 64 wiring combinations (8 per case, each compared with the canonical wiring)", sse, check);
-    ctx.pbt("requests_x_wirings", ctx.n(220, 8_000), strat, check);
+    ctx.pbt("requests_x_wirings", ctx.n(320, 8_000), strat, check);
 }
